@@ -556,9 +556,16 @@ HookSub(h, j, len) ==
 HookUnsub(h, j, len) ==
   LET c == h.sbj[j].hook IN
   IF c = 0 \/ len # 0 \/ h.stuck # "" THEN h
-  ELSE LET h1 == Touch(h, Lk("conn", c), "R")
-       IN IF h1.stuck # "" \/ ~h1.conn[c].some \/ ~h1.conn[c].live THEN h1
-          ELSE Unsub([h1 EXCEPT !.conn[c].live = FALSE], h1.conn[c].obs)
+  ELSE IF h.conn[c].kind = "ref_count"
+       \* (fix: ref_count takes the subscription out of its slot - write lock - and unsubscribes it with no lock held, so that
+       \*  the next first subscriber connects again)
+       THEN LET h1 == Touch(h, Lk("conn", c), "W")
+            IN IF h1.stuck # "" \/ ~h1.conn[c].some THEN h1
+               ELSE IF ~h1.conn[c].live THEN [h1 EXCEPT !.conn[c].some = FALSE]
+               ELSE Unsub([h1 EXCEPT !.conn[c].some = FALSE, !.conn[c].live = FALSE], h1.conn[c].obs)
+       ELSE LET h1 == Touch(h, Lk("conn", c), "R")
+            IN IF h1.stuck # "" \/ ~h1.conn[c].some \/ ~h1.conn[c].live THEN h1
+               ELSE Unsub([h1 EXCEPT !.conn[c].live = FALSE], h1.conn[c].obs)
 ReplayItems(h, o, items) == IF items = <<>> \/ h.stuck # "" THEN h ELSE ReplayItems(CallNext(h, o, Head(items)), o, Tail(items))
 SubjSubscribe(h, j, o) ==
   IF h.stuck # "" THEN h ELSE
